@@ -58,11 +58,103 @@ def common(ctx, prop, kinds):
                                "replay": "echo '{\"src\": <src>, \"media\": \"js\", \"rules\": [\"no-unreachable\"]}' | harness/target/release/vh lint"})
 
 
+# ----------------------------------------------------------------------------
+# C11, property-level family "getter forms": the same getter body, written in every syntactic form that getter-return
+# knows (object / class / static / private getters; property descriptors for Object.defineProperty, Reflect.defineProperty,
+# Object.defineProperties, Object.create with `get() {}`, `get: function () {}`, `get: () => {}`), with a spread element and
+# other properties before / after the accessor.  An offending body (no return, or a path that falls off the end) must be
+# reported exactly once in every form, like in the plain object getter; the twin body `return 1;` must be silent.
+# ----------------------------------------------------------------------------
+GF_BAD_BODIES = [("empty", "{ }"), ("try-falls-off", "{ try { return f(); } catch { } }"), ("if-falls-off", "{ if (a) return 1; }"),
+                 ("loop-break", "{ while (true) { if (a) break; return 1; } }")]
+GF_GOOD_BODY = "{ return 1; }"
+GF_ACCESSORS = [("method", "get() %s"), ("function", "get: function () %s"), ("named-function", "get: function g() %s"), ("arrow", "get: () => %s")]
+# (name, text before the accessor, text after it) inside the descriptor literal
+GF_SURROUNDINGS = [("alone", "", ""), ("spread-before", "...base, ", ""), ("spread-after", "", ", ...rest"), ("props-before", "enumerable: true, set(v) { }, ", ""),
+                   ("props-after", "", ", configurable: true"), ("spread-and-props-around", "a: 1, ...base, b: 2, ", ", c: 3, ...rest, d: 4"),
+                   ("two-spreads-before", "...b1, ...b2, ", "")]
+GF_APIS = [("Object.defineProperty", "Object.defineProperty(o, 'x', %s);", False), ("Reflect.defineProperty", "Reflect.defineProperty(o, 'x', %s);", False),
+           ("Object.defineProperties", "Object.defineProperties(o, { %sfoo: %s%s });", True), ("Object.create", "Object.create(o, { %sfoo: %s%s });", True),
+           ("Object.defineProperty-optional-call", "Object.defineProperty?.(o, 'x', %s);", False), ("Object.defineProperty-parenthesised", "(Object.defineProperty)(o, 'x', %s);", False)]
+# the entry that holds the descriptor, inside the map of descriptors
+GF_MAP_SURROUNDINGS = [("", "", ""), ("map-spread-before", "...others, ", ""), ("map-entries-around", "bar: { value: 1 }, ...others, ", ", baz: { value: 2 }, ...more")]
+GF_PLAIN = [("object-getter", "x = { get p() %s };"), ("object-getter-among-props", "x = { a: 1, ...base, get p() %s, ...rest, b: 2 };"),
+            ("object-getter-computed", "x = { get [k]() %s };"), ("object-getter-string-key", "x = { get 'p q'() %s };"),
+            ("class-getter", "class K { get p() %s }"), ("static-class-getter", "class K { static get p() %s }"), ("private-class-getter", "class K { get #p() %s }"),
+            ("static-private-class-getter", "class K { static get #p() %s }"), ("class-expression-getter", "x = class { get p() %s };"),
+            ("class-getter-after-members", "class K { a = 1; m() { return 1; } static { } get p() %s }"),
+            ("nested-object-getter", "x = { inner: { get p() %s } };"), ("getter-in-call-argument", "f({ get p() %s });"),
+            ("getter-in-default-parameter", "function w(a = { get p() %s }) { return a; }")]
+
+
+def getter_form_programs():
+    """-> [(form name, template with one %s for the getter body)]"""
+    out = list(GF_PLAIN)
+    for aname, acc in GF_ACCESSORS:
+        for sname, pre, post in GF_SURROUNDINGS:
+            desc = "{ " + pre + acc + post + " }"
+            for api, tpl, is_map in GF_APIS:
+                if is_map:
+                    for mname, mpre, mpost in GF_MAP_SURROUNDINGS:
+                        out.append(("%s:%s:%s%s" % (api, aname, sname, (":" + mname) if mname else ""), tpl % (mpre, desc, mpost)))
+                else:
+                    out.append(("%s:%s:%s" % (api, aname, sname), tpl % desc))
+    return out
+
+
+def getter_forms(ctx):
+    forms = getter_form_programs()
+    cases, meta = [], []
+    for fname, tpl in forms:
+        for bname, body in GF_BAD_BODIES + [("returns", GF_GOOD_BODY)]:
+            src = tpl % body
+            cases.append({"src": src, "media": "ts", "rules": ["getter-return"]})
+            meta.append((fname, bname, src))
+    res = lib.run_vh("lint", cases)
+    n = ok = 0
+    seen = {}
+    for (fname, bname, src), r in zip(meta, res):
+        if r is None or "ok" not in r:
+            ctx.violation("C11.getter-forms:no-verdict:%s" % fname, "no verdict (%s) for %s" % (json.dumps(r)[:120], src), {"program": src, "result": r})
+            continue
+        got = len([d for d in r["ok"] if d["code"] == "getter-return"])
+        want = 0 if bname == "returns" else 1
+        n += 1
+        if got == want:
+            ok += 1
+            continue
+        kind = "missed" if got < want else "reported-although-it-returns" if want == 0 else "reported-%d-times" % got
+        cls = "C11.getter-forms:%s:%s" % (kind, fname)
+        seen[cls] = seen.get(cls, 0) + 1
+        if seen[cls] <= 1 and len(seen) <= 6:      # at most six classes are reported in detail, all are counted
+            ctx.violation(cls, "getter-return: the getter body `%s` written as %s is reported %d time(s), the plain object getter %d time(s): %s" % (
+                              dict(GF_BAD_BODIES + [("returns", GF_GOOD_BODY)])[bname], fname, got, want, src),
+                          {"program": src, "rule": "getter-return", "expected_reports": want, "got_reports": got,
+                           "replay": "echo '{\"src\": <program>, \"media\": \"ts\", \"rules\": [\"getter-return\"]}' | harness/target/release/vh lint"})
+    ctx.correspondence("getter forms: %d syntactic forms of a getter (object / class / static / private getters, descriptors for Object.defineProperty, "
+                       "Reflect.defineProperty, Object.defineProperties, Object.create with method / function / arrow accessors, spread elements and other "
+                       "properties around the accessor and around the descriptor) x %d bodies: an offending body is reported once, `return 1;` never" % (
+                           len(forms), len(GF_BAD_BODIES) + 1),
+                       n, ok, [], "%d verdicts differ (%d classes); non-trivial := verdict obtained;" % (n - ok, len(seen)) + "  expected count 1 for the %d offending bodies, 0 for the returning twin" % len(GF_BAD_BODIES))
+
+
+def function_kinds(ctx, prefix, rules):
+    """property-level family shared with C08: every function-like wrapper (57 kinds: declarations, expressions, arrows, class /
+    object / private / static / computed methods, object and class accessors, constructors, field arrows, export default)
+    gives the verdict of the plain function expression, as boundary and as container, for the rules that read the
+    control-flow analysis"""
+    import props_c08
+    props_c08.function_kind_family(ctx, prefix=prefix, only_rules=set(rules))
+
+
 @register("C10")
 def c10(ctx):
     common(ctx, "C10", ["c10"])
+    function_kinds(ctx, "C10", ["no-unreachable"])
 
 
 @register("C11")
 def c11(ctx):
     common(ctx, "C11", ["getter", "cases"])
+    function_kinds(ctx, "C11", ["getter-return", "no-fallthrough"])
+    getter_forms(ctx)
